@@ -200,7 +200,7 @@ func (g *gen) randomScript(o scriptOpts, c *ctx) []Stmt {
 			emit(Stmt{Kind: "modifyColumn", T: t.Name, Col: ColDef{Name: old.Name, Typ: nt, Opts: g.opts(nt)}})
 		case k < 10 && o.renames:
 			i := g.rng.Intn(len(t.Cols))
-			nn := g.freshName(colPool, func(n string) bool { return t.colIndex(n) >= 0 }, "col")
+			nn := g.freshName(g.colNames(), func(n string) bool { return t.colIndex(n) >= 0 }, "col")
 			emit(Stmt{Kind: "renameColumn", T: t.Name, A: t.Cols[i].Name, B: nn})
 		case k < 12 && o.keys:
 			if ix, ok := g.newIndex(t); ok {
